@@ -538,7 +538,7 @@ pub fn run(mut run: Run) -> ! {
     run.case_timeout_s = 60.0;
     let quick = run.quick();
     let depth = if quick { 1 } else { 2 };
-    run.rule = "generator-AST models (objective family and constraint family of C02/C01 over bounded declarations, every row named) are expressed through: the fluent builder via operator overloads and helper functions (three operand spellings: Expr op Expr only; the most specific overload per operand pair over i32/f64 literals, Var handles, bool and helper functions over Var items; f64-only literals with Expr op &Expr) with EVERY call order (objective at each of the k+1 positions, every split of the constraints between with and with_all, satisfy explicit or defaulted, with and without two declared-but-unused variables), source text with inline constants, source text with the constants supplied through the API, PipeRunner presets (Compiler>PreModel>Model>LinearModel>MILP and >Auto), RoocSolver one-shot, plus compiled-in vars!/constraint!/expr! spellings; linear models are compared row for row (modulo unused builder variables), verdicts and optimal values across doors, pipe stage outputs with direct calls, and values read back through handles, names and eval with the reference semantics; distinct = source texts; non-trivial = compiles".into();
+    run.rule = "generator-AST models (objective family and constraint family of C02/C01 over bounded declarations, objectives over three variables with different ranges, every row named) are expressed through: the fluent builder via operator overloads and helper functions (three operand spellings: Expr op Expr only; the most specific overload per operand pair over i32/f64 literals, Var handles, bool and helper functions over Var items; f64-only literals with Expr op &Expr) with EVERY call order (objective at each of the k+1 positions, every split of the constraints between with and with_all, satisfy explicit or defaulted, with and without two declared-but-unused variables), source text with inline constants, source text with the constants supplied through the API, PipeRunner presets (Compiler>PreModel>Model>LinearModel>MILP and >Auto), RoocSolver one-shot, plus compiled-in vars!/constraint!/expr! spellings; linear models are compared row for row (modulo unused builder variables), verdicts and optimal values across doors, pipe stage outputs with direct calls, and values read back through handles, names and eval with the reference semantics; distinct = source texts; non-trivial = compiles".into();
     run.assume("identical expression trees must give identical linear models; the builder keeps unused variables, which are projected away; tolerance 1e-6 on optimal values and read-back");
     // the quick tier uses the full declaration / constant menus at context depth 1
     let n2 = c02::family_size_pub(depth, false);
@@ -562,6 +562,8 @@ pub fn run(mut run: Run) -> ! {
         }
         check_case(&c, l);
     });
+    let ddepth = if quick { 0 } else { 1 };
+    run.family("D-objectives-over-several-continuous-variables", c02::family_d_size(ddepth), move |i, l| check_case(&c02::family_d(i, ddepth), l));
     run.family("M-macro-spellings", 1, |_, l| macro_models(l));
     for k in ["builder_call_orders", "models_with_agreeing_compilations", "verdicts_compared", "handles_read_back", "evals_compared", "pipe_stages_compared", "macro_models"] {
         run.require(k);
